@@ -188,6 +188,9 @@ func (e *Exec) harnessIntrinsic(short string, args []Value) (Value, bool) {
 	case "vcfgMapOrderIn":
 		e.mapOrderFn[e.concStr(args[0])] = true
 		return nil, true
+	case "vcfgAppendCapIn":
+		e.appendCapFn[e.concStr(args[0])] = true
+		return nil, true
 	case "vnative":
 		return BoolV{C: false}, true
 	case "vtier":
